@@ -8,47 +8,6 @@ import (
 	"github.com/evanphx/json-patch/v5/zzverif/vx"
 )
 
-// atom appends one element of the escape alphabet to (value, spelling).
-const nAtoms = 11
-
-func atom(name string, kind int, val, sp []byte) ([]byte, []byte) {
-	switch kind {
-	case 0: // any printable ASCII byte except quote and backslash (covers <, >, &)
-		b := symPlain(name)
-		return append(val, b), append(sp, b)
-	case 1:
-		return append(val, '"'), append(sp, '\\', '"')
-	case 2:
-		return append(val, '\\'), append(sp, '\\', '\\')
-	case 3:
-		return append(val, 0x1f), append(sp, `\u001f`...)
-	case 4: // raw U+2028
-		return append(val, 0xE2, 0x80, 0xA8), append(sp, 0xE2, 0x80, 0xA8)
-	case 5: // raw U+2029
-		return append(val, 0xE2, 0x80, 0xA9), append(sp, 0xE2, 0x80, 0xA9)
-	case 6: // U+2028 spelled as the encoder spells it
-		return append(val, 0xE2, 0x80, 0xA8), append(sp, ` `...)
-	case 7: // non-BMP, raw
-		return append(val, 0xF0, 0x9F, 0x98, 0x80), append(sp, 0xF0, 0x9F, 0x98, 0x80)
-	case 8: // lone surrogate escape (decodes to U+FFFD)
-		return append(val, 0xEF, 0xBF, 0xBD), append(sp, `\ud83d`...)
-	case 9:
-		return append(val, '\n'), append(sp, '\\', 'n')
-	case 10: // < spelled as the encoder spells it with EscapeHTML on
-		return append(val, '<'), append(sp, `<`...)
-	}
-	panic("atom")
-}
-
-// escString: a string of `natoms` atoms chosen by mask.
-func escString(name string, natoms, mask int) (val, sp []byte) {
-	val, sp = []byte{}, []byte{}
-	for i := 0; i < natoms; i++ {
-		val, sp = atom(name+"."+itoa(i), chooseMask(name+".atom"+itoa(i), mask, nAtoms), val, sp)
-	}
-	return
-}
-
 const nEscShapes = 4
 
 // escDoc: documents carrying escape-alphabet strings as values and as member names.
@@ -234,6 +193,8 @@ func H_Escape() {
 		return
 	}
 	vx.Assert(refEqualOrdered(got, ref.Doc), "C15/reads-back-as-intended-value")
+	vx.Assert(refEqualOrdered(got, ref.Doc), "C05/strings-keep-their-value")
+	vx.Assert(refEqualOrdered(got, ref.Doc), "C01/result-equals-rfc")
 	if escape {
 		vx.Assert(noRawHTML(out), "C15/escape-on-no-raw-html-characters")
 		vx.Reach("escape/on")
